@@ -7,6 +7,7 @@ PROPS = {
                 "configurations up to 2^40 with values at bucket/sub-bucket boundaries +-1 (verif-tagged probe); "
                 "hdr-stat: random multisets, merges, windows, import/export. A case is non-trivial/distinct when it "
                 "lands in a distinct (configuration, counts index) pair resp. yields a distinct counts array.",
+        "technique": "Lean 4 theorems over a hand-written model + Go-to-Lean translation of hdr.go's integer functions regenerated on every run and proved equal to the model + differential correspondence check against the Go implementation",
         "level_text": "Theorems (Props/C12.lean) for every valid configuration and every value: recording v <= highest succeeds in every "
                       "reachable state, v lies in its reported range, the range width is the unit or at most v*10^-sigfigs, total = number "
                       "accepted = sum of counts, rejection is a no-op. Proved over Nat from the literal bitLen cascade and sizing loop of the "
@@ -16,7 +17,8 @@ PROPS = {
                       "definitions on every run (harness/cmd/extract/translate.go -> Gen/Code.lean) and go_code_is_model proves the translated functions equal "
                       "to the model's for every configuration New can establish and every value below 2^63; go_index_in_range, go_value_in_reported_range, "
                       "go_range_width_bound restate the property's clauses about the translated Go functions themselves; go_bitLen_is_bit_length shows the "
-                      "translated loop never runs out of its fuel on an int64.",
+                      "translated loop never runs out of its fuel on an int64; RecordValues itself is translated too (receiver threaded functionally, error = none): "
+                      "go_RecordValues_is_model, go_record_succeeds (nil for every value up to the highest trackable one in every reachable state).",
         "level_note": "Proof is about the Lean model; trusted: Lean kernel, propext/Classical.choice/Quot.sound, the correspondence harness. "
                       "Preconditions: sigfigs 1..5, lowest < 2^40, highest < 2^62 (no int64 overflow; float steps of New exact). "
                       "The clause 'total = sum of Distribution() bar counts' is proved as total = sum of the counts array; the iterator walk "
@@ -189,12 +191,16 @@ PROPS = {
         "assumptions": ["batch size >= 1"],
     },
     "C14": {
+        "gen": True,
         "streams": ["events"],
         "rule": "events: random event sequences (1-12 events; ids zero/non-zero/extreme; counters and timers from boundary values incl. MinInt64/MaxInt64 and random "
                 "64-bit values; nil events; the pointer of an earlier event re-used after being refilled) through the cumulative, n-sampling (n = 1..7) and pass-through "
                 "collectors over a snapshotting collector that forwards to a real batch collector; marshal/unmarshal round trips. Oracle: value-semantics running totals, "
                 "decoded FTDC output = persisted samples. Distinct = distinct case line.",
-        "level_text": "Theorems (Props/C14.lean) for every event list: cumulative_kth (the k-th written sample is the specification's totals of events 1..k: sums of counters and "
+        "technique": "Lean 4 theorems over a hand-written model + Go-to-Lean translation of Performance.Add regenerated on every run and proved equal to the model + differential correspondence check against the Go implementation",
+        "level_text": "Performance.Add is TRANSLATED from events/performance.go into a Lean definition on every run (Gen/Code.lean); go_performance_add_is_model proves it equal, modulo the int64 "
+                      "wrap-around, to the model's Perf.add for all values, and go_running_totals folds it over any event list to the specification's totals. "
+                      "Theorems (Props/C14.lean) for every event list: cumulative_kth (the k-th written sample is the specification's totals of events 1..k: sums of counters and "
                       "timers, last time stamp/gauges, id rule), nil refused, pass-through exact, sampling totals always accumulate and index i is written iff n | i, "
                       "perf_roundtrip (unmarshal (marshal p) = p, marshal/unmarshal modelled key by key).",
         "level_note": "Events are values in the model; that the Go collectors do not alias the caller's struct is what the re-used-pointer cases of the stream check (finding F18, "
